@@ -134,9 +134,53 @@ def check_cases(cases: list[dict], rep: Report, known: dict) -> None:
         rep.sample({"e": info["e"], "p": info["p"], "impl": info["impl"], "model": info["model_F0"]})
 
 
+def mf_tie(rep: Report, rng, tier: str) -> None:
+    """the numeric primitives of math_functions.py called directly against the model's `mf*`
+    functions (driver request `mf`): values within the model's bound, the same error kinds"""
+    import smoothmath._private.math_functions as mf
+    nums = [0, 1, -1, 2, -2, 0.5, -0.5, 3, 10, 0.1, -0.1, 1e-9, -1e-9, 1e9, 7.0, 32, -32, 81.0, 81.00000001, -128.0, 1e-300,
+            1e100, 2.718281828459045, 0.9999999999999999, 1.0000000000000002, 1e-15, 40.0, -40.0, 1e20, 123456.789, 0.0, -0.0, 4, 0.25]
+    ns = [0, 1, 2, 3, 4, 5, 6, 7, 8, 9, 10, 11, 12, 15, 16, 21, 27, 32, 64, 100]
+    bases = [math.e, 2, 10, 0.5, 3.0, 1, 1.0000000000000002, 1e-300, 0, -2, 0.25]
+    reqs = []
+    count = common.sizes(tier, 1500, 12000)
+    for _ in range(count):
+        f = rng.choice(["add", "multiply", "minus", "negation", "divide", "reciprocal", "power", "nth_power", "nth_root",
+                        "exponential", "logarithm", "cosine", "sine"])
+        x, y = rng.choice(nums), rng.choice(nums)
+        if rng.random() < 0.3:
+            k, n0 = rng.choice([1, 2, 3, 5, 7, 10]), rng.choice(ns[1:12])
+            x = float(k ** n0) * (1 + rng.choice([0, 1e-10, -1e-10, 3e-13])) * rng.choice([1, 1, -1])
+        if f in ("add", "multiply"):
+            args = [rng.choice(nums) for _ in range(rng.randint(0, 4))]
+            req, impl = f"mf {f} {len(args)} " + " ".join(wire.num(a) for a in args), call(getattr(mf, f), *args)
+        elif f in ("minus", "divide", "power"):
+            req, impl = f"mf {f} {wire.num(x)} {wire.num(y)}", call(getattr(mf, f), x, y)
+        elif f in ("negation", "reciprocal", "cosine", "sine"):
+            req, impl = f"mf {f} {wire.num(x)}", call(getattr(mf, f), x)
+        elif f in ("nth_power", "nth_root"):
+            n = rng.choice(ns)
+            req, impl = f"mf {f} {wire.num(x)} {n}", call(getattr(mf, f), x, n)
+        else:
+            b = rng.choice(bases)
+            req, impl = f"mf {f} {wire.num(x)} {wire.num(b)}", call(getattr(mf, f), x, b)
+        reqs.append(NumCase((req,), req, impl, {"request": req, "impl": repr(impl), "function": f}))
+    judge_numeric(reqs, rep)
+    for nc in reqs:
+        rep.evaluations += 1
+        if nc.verdict.startswith("skip"):
+            rep.skip("mf-" + nc.verdict[5:])
+            continue
+        rep.corr_checked += 1
+        rep.count("math_functions", nc.info["function"] + (":error" if nc.impl[0] == "err" else ":value"))
+        if nc.verdict == "mismatch":
+            rep.corr_break(f"math_functions.{nc.info['function']} differs from the model: {nc.detail}", nc.info)
+
+
 def run(rep: Report, rng, tier: str, known: dict, search: bool = False) -> None:
     cases = ([] if search else k3_corpus()) + gen_cases(rng, tier)
     check_cases(cases, rep, known)
+    mf_tie(rep, rng, tier)
 
 
 def evidence(rep: Report) -> None:
